@@ -21,7 +21,9 @@ FILES = [
 REQUIRED_THEOREMS = ["C18_first_stop", "C18_never_self", "C18_needs_history", "C18_variance_refused",
                      "C18_unknown_criterion", "C18_deprecated_eq", "C18_degenerate_no_stop", "C18_tolerance_infinite",
                      "C18_first_stop_multi", "C18_stop_request_stands", "C18_stop_request_stands_dispatch",
-                     "C18_fit_keeps_monitoring", "C18_clear_history_monitors"]
+                     "C18_fit_keeps_monitoring", "C18_clear_history_monitors",
+                     "C18_derived_requests", "C18_fit_cases", "C18_fitLoop_is_C12_fit", "C18_stop_trace",
+                     "C18_fit_cases_multi", "C18_multiReq_derived", "C18_fitRunMulti_is_C12_fit"]
 EXTRA_TRUSTED = [
     "C18: the monitored values are scripted functions of the epoch; float64 sub/div/abs/sqrt and `<` of Lean's Float are IEEE, "
     "as are Python's and numpy's, so decisions are compared exactly",
@@ -167,10 +169,41 @@ def tiny_state(fm):
     return qc.PositiveWaveFunction(fm.i("num_visible", 2), fm.i("num_hidden", 2), gpu=fm.gpu())
 
 
-def fit_args(fm, last, first):
+def fit_args(fm, last, first, pbs=4):
     F = af.FIT_INT
     return dict(epochs=fm.i("epochs", last, F["epochs"]), starting_epoch=fm.i("starting_epoch", first, F["starting_epoch"]),
-                pos_batch_size=fm.i("pos_batch_size", 4, F["pos_batch_size"]), k=fm.i("k", 1, F["k"]), lr=0.01)
+                pos_batch_size=fm.i("pos_batch_size", pbs, F["pos_batch_size"]), k=fm.i("k", 1, F["k"]), lr=0.01)
+
+
+N_ROWS = 4      # rows of the training data of every run of this module
+
+
+def num_batches(case):
+    """batches per epoch of the main fit of a single case: ceil(4 rows / pos_batch_size); `pbs` absent (stored cases) = 4"""
+    return -(-N_ROWS // int(case.get("pbs", 4)))
+
+
+def event_recorder(trace):
+    """a LambdaCallback (listed FIRST) that records the six events of `fit` with their arguments, in order"""
+    from qucumber.callbacks import LambdaCallback
+
+    return LambdaCallback(on_train_start=lambda nn_state: trace.append(["ts"]),
+                          on_train_end=lambda nn_state: trace.append(["te"]),
+                          on_epoch_start=lambda nn_state, ep: trace.append(["es", int(ep)]),
+                          on_epoch_end=lambda nn_state, ep: trace.append(["ee", int(ep)]),
+                          on_batch_start=lambda nn_state, ep, b: trace.append(["bs", int(ep), int(b)]),
+                          on_batch_end=lambda nn_state, ep, b: trace.append(["be", int(ep), int(b)]))
+
+
+def spec_trace(first, last, stop_epoch, nb):
+    """the documented event protocol of a fit over first..last that is stopped at the end of `stop_epoch` (None: not at all)"""
+    out = [["ts"]]
+    for e in range(first, (last if stop_epoch is None else stop_epoch) + 1):
+        out.append(["es", e])
+        for b in range(nb):
+            out += [["bs", e, b], ["be", e, b]]
+        out.append(["ee", e])
+    return out + [["te"]]
 
 
 def metric_evaluator(fm, pe, metrics):
@@ -305,13 +338,15 @@ def run_impl(case, ctx=None):
             if case["pre"]:
                 st.fit(data, callbacks=[rec, ev, tail], **fit_args(fm, case["pre"][-1][0], case["pre"][0][0]))
                 rec.fired = []
-            cbl = [rec, ev, stopper, tail] if case["eval_first"] else [rec, stopper, ev, tail]
+            # the event recorder is listed FIRST (identity 0): [recorder, world table, evaluator / stopper in the case's order, tail]
+            trace = []
+            cbl = [event_recorder(trace), rec] + ([ev, stopper] if case["eval_first"] else [stopper, ev]) + [tail]
             if case["cands"]:
-                st.fit(data, callbacks=cbl, **fit_args(fm, case["cands"][-1][0], case["cands"][0][0]))
+                st.fit(data, callbacks=cbl, **fit_args(fm, case["cands"][-1][0], case["cands"][0][0], int(case.get("pbs", 4))))
         except Exception as e:  # noqa: BLE001
             return {"error": type(e).__name__, "where": "fit", "fired_before": list(rec.fired), "ctor": res["ctor"]}
     res.update({"stop": bool(st.stop_training), "last_epoch": stopper.last_epoch, "fired": list(rec.fired),
-                "len": len(ev), "epochs": [int(x) for x in ev.epochs]})
+                "len": len(ev), "epochs": [int(x) for x in ev.epochs], "trace": trace if case["cands"] else None})
     return res
 
 
@@ -387,6 +422,24 @@ def one_case(ctx, case, known_probe=False):
             ctx.point("fired", "property", impl["fired"], mo["fired"], case, exact=True, sig=f"{sig0}/stopping-epoch", theorem=th)
             ctx.point("evaluator.len", "aux", impl["len"], mo["len"], case, exact=True, sig=f"{sig0}/evaluator-len")
             ctx.point("evaluator.epochs", "aux", impl["epochs"], mo["epochs"], case, exact=True, sig=f"{sig0}/evaluator-epochs")
+            if impl.get("trace") is not None:
+                # the FULL event trace of the real fit (LambdaCallback listed first) against QV.Train.fit (the C12 model) run with the
+                # stop requests DERIVED from evaluator + stopper (QV.Cb.stopperReq), with the case's number of batches per epoch
+                first, last = case["cands"][0][0], case["cands"][-1][0]
+                nb = num_batches(case)
+                ctx.count(f"event trace compared, batches per epoch={nb}")
+                mt = ctx.driver.call("c18.fit_trace", **model_args(case), start=first, epochs=last, num_batches=nb,
+                                     cbs=[0, 1, 2, 3, 4], st_id=3 if case["eval_first"] else 2, timer=False)
+                tht = "C18_fitLoop_is_C12_fit, C18_stop_trace"
+                if "error" in mt:
+                    ctx.point("trace.raised", "property", False, True, case, exact=True, sig=f"{sig0}/exception", theorem="C18_first_stop")
+                else:
+                    t = mt["ok"]
+                    ctx.point("trace.events", "property", impl["trace"], t["events"], case, exact=True, sig=f"{sig0}/event-trace", theorem=tht)
+                    ctx.point("trace.stop", "property", impl["stop"], t["stop"], case, exact=True, sig=f"{sig0}/stop-flag", theorem=tht)
+                    # what the theorem proves about the two models (checked on the executed definitions as well)
+                    ctx.point("trace.tie", "aux", [[ev_[1] for ev_ in t["events"] if ev_[0] == "ee"], t["stop"]],
+                              [t["fired"], t["loop_stop"]], case, exact=True, sig=f"{sig0}/model-tie")
 
     # ---- oracle: the documented rule, evaluated independently
     if not case.get("valid", True):
@@ -406,6 +459,14 @@ def one_case(ctx, case, known_probe=False):
     ctx.oracle("stops at the first checked epoch satisfying the documented rule, and at no earlier epoch", ok, case,
                detail={"impl": {k: impl[k] for k in ("stop", "last_epoch", "fired")}, "reference_stop_epoch": ref_stop, "reference_fired": ref_fired},
                sig=f"{sig0}/first-stop-oracle", theorem="C18_first_stop")
+    if impl.get("trace") is not None:
+        first, last = case["cands"][0][0], case["cands"][-1][0]
+        want = spec_trace(first, last, ref_stop, num_batches(case))
+        ctx.oracle("event trace of the run: train-start, the epochs up to the first checked epoch satisfying the rule (all of them if none) "
+                   "each with all its batches, that epoch's end, train-end; no later epoch starts", impl["trace"] == want, case,
+                   detail={"impl_trace_tail": impl["trace"][-6:], "expected_tail": want[-6:], "reference_stop_epoch": ref_stop,
+                           "lengths": [len(impl["trace"]), len(want)]},
+                   sig=f"{sig0}/event-trace-oracle", theorem="C18_stop_trace")
     if degenerate:
         ctx.oracle("no stop at a degenerate comparison (zero reference / non-positive variance), whatever the tolerance",
                    impl["last_epoch"] not in degenerate, case, detail={"impl": impl, "degenerate_epochs": degenerate},
@@ -1119,7 +1180,9 @@ def mk_case(rng, criterion, p, pe, ps, eval_first, tol, family, kindmode, start=
             "ek": ek, "patience": p, "patience_arg": rng.choice([p, p, p + 0.7]), "pe": pe, "ps": ps, "eval_first": eval_first, "tol": tol,
             "family": family, "kindmode": kindmode, "name": QUANTITY_NAMES[(7 * p + 3 * pe + ps + total + len(family)) % len(QUANTITY_NAMES)],
             "pre": pre, "cands": cands, "vals": vals, "kinds": kinds,
-            "vars": vars_, "vkinds": vkinds, "deprecated": deprecated, "valid": True, "aseed": af.new_seed(rng)}
+            "vars": vars_, "vkinds": vkinds, "deprecated": deprecated, "valid": True, "aseed": af.new_seed(rng),
+            # pos_batch_size of the main fit (4 rows): 1, 2 or 4 batches per epoch; a function of the case (no draw: value streams unchanged)
+            "pbs": (4, 2, 1, 3)[(p + pe + ps + n) % 4]}
     if deprecated:
         case["variance_name"], case["vn_how"] = draw_variance_name(case["aseed"])
     if extra:
